@@ -1,7 +1,7 @@
 """Registry of sidecar contracts, object shapes, lemmas and assumed axioms."""
 import importlib
 
-MODULES = ['json_util']
+MODULES = ['json_util', 'created_files']
 
 CONTRACTS = {}      # qualname -> Contract
 LEMMAS = {}         # name -> Lemma (registration order preserved)
